@@ -743,6 +743,12 @@ def run(chk, replay=None):
                         modnames.setdefault(n, []).append(e)
             gidx = {(fi, it["name"]): i for i, fi, it in graphs[di][1]}
             bx = dict(x.split("=") for x in boxes.get(di, "").split()) if boxes.get(di) else {}
+            # field lists the model predicts, per ORIGINAL struct name (structs of different files / modules may share it)
+            wants_by_name = {}
+            for fi, f in enumerate(d["doc"].files):
+                for it in f["items"]:
+                    if it["kind"] in ("struct", "exception"):
+                        wants_by_name.setdefault(it["name"], []).append(list(nn.get((di, "%s:%s" % (f["name"], it["name"])), [])) + (["_unknown_fields"] if c["keep"] else []))
             for fi, f in enumerate(d["doc"].files):
                 for it in f["items"]:
                     if it["kind"] not in ("struct", "exception"):
@@ -755,6 +761,11 @@ def run(chk, replay=None):
                     want = pred + (["_unknown_fields"] if c["keep"] else [])
                     dist["struct_blocks_compared"] += 1
                     hit = [b2 for b2 in blocks if [x for x, _ in b2] == want]
+                    if not hit and c["iu"] and all([x for x, _ in b2] in wants_by_name.get(it["name"], []) for b2 in blocks):
+                        # ignore_unused: this struct is not generated; the blocks of that name belong to equally named structs of other
+                        # files, and each of them is what the model predicts for one of those
+                        dist["struct_blocks_compared"] -= 1
+                        continue
                     if not hit:
                         mism.append(dict(case="%s %s struct %s" % (d["id"], cfg_id(c), it["name"]), model_output=want,
                                          impl_output=[[x for x, _ in b2] for b2 in blocks][:3],
